@@ -1,7 +1,7 @@
 (** C02 — longest-prefix match returns the most specific covering entry.
     Statements only; proofs are in Lookup.v. *)
 From Coq Require Import List NArith.
-From PT Require Import Lookup.
+From PT Require Import Lookup Arena Arena3 ArenaProps.
 From PT.Properties Require Import Common.
 Import ListNotations.
 
@@ -62,6 +62,17 @@ Theorem C02_get_lpm_mut (t : tree pfx V) (q : pfx) :
   option_map (drop_slot pfx V) (t_get_lpm_mut w fl V t q) = t_get_lpm w fl V t q.
 Proof. exact (get_lpm_mut_eq pfx V _ _ _ _ t q). Qed.
 
+(** * The same statement about the ARENA-level transcription of the code (Arena*.v; ArenaProps.v
+      composes the refinement [Rep] with the tree-level theorem).  [areach am]: [am] is reached from
+      the empty arena by a history of arena-level mutator calls with valid prefixes. *)
+Theorem C02_arena (am : amap pfx V) (es : list (pfx * V)) (q : pfx) :
+  areach pfx V (peq w) (contains w fl) (is_bit_set w) plen (lcp w fl) pzero (okp w) am -> okp w q -> a_entries pfx V am = Ok es ->
+  exists o, Arena.a_get_lpm pfx V (peq w) (contains w fl) (is_bit_set w) plen am q = Ok o /\
+    match o with Some e => is_lpm es q e | None => no_cover es q end /\
+    Arena3.a_get_lpm_prefix pfx V (peq w) (contains w fl) (is_bit_set w) plen am q = Ok (option_map fst o) /\
+    exists om, Arena3.a_get_lpm_mut pfx V (peq w) (contains w fl) (is_bit_set w) plen am q = Ok om /\ option_map (drop_slot pfx V) om = o.
+Proof. exact (arena_C02_get_lpm pfx V _ _ _ _ _ _ _ _ _ (laws w fl Hw) am es q). Qed.
+
 End C02.
 
 (** non-vacuity: a well-formed tree with a value-less leftover on the query path *)
@@ -77,3 +88,4 @@ Print Assumptions C02_reachable.
 Print Assumptions C02_shape_independent.
 Print Assumptions C02_get_lpm_prefix.
 Print Assumptions C02_get_lpm_mut.
+Print Assumptions C02_arena.
